@@ -12,16 +12,29 @@ CFG = {
                   "cache updates (address cache, account name, extendAddresses indices, imports, sync state). These are "
                   "reported as findings with stable oracle keys (C08 key=rollback.*); the theorems that hold are proved, "
                   "the others carry explicit hypotheses.",
-    "lean_props": ["BtcwVerif.Props.C08"],
-    "engines": ["addrmgr-lock"],
+    "level_note_wallet": " Wallet level (engine wallet-restart, model WalletRestart, theorems C08_wallet_*): proved for ALL histories of wallet requests "
+                         "(NewAddress, NewChangeAddress, CurrentAddress, CreateSimpleTx dry/real/failing, FundPsbt, ImportAccountDryRun ok/failing, ImportAccount, "
+                         "RenameAccount, NextAccount, Lock/Unlock): dry runs and failed requests never change the database image; the account cache stays coherent; "
+                         "AccountProperties / AccountNumber / AccountName / next address of every branch agree with a restarted wallet; NewAddress / NewChangeAddress "
+                         "return what a restarted wallet returns. PARTIAL: AddressInfo/HaveAddress (false for addresses of rolled-back transactions, F9) and "
+                         "Unlock after ImportAccountDryRun (new finding) - counter-example theorems + oracle keys.",
+    "lean_props": ["BtcwVerif.Props.C08", "BtcwVerif.Props.C08w"],
+    "engines": ["addrmgr-lock", "wallet-restart"],
     "trusted_base": COMMON_TB + [
         "hand-written model BtcwVerif/Model/AddrLock.lean (tied by differential run)",
         "bbolt transaction atomicity and OnCommit semantics (C11's assumption): commit handlers run only after a successful commit",
         "the commit-failure decorator of the harness rolls the bdb transaction back and returns an error",
+        "hand-written model BtcwVerif/Model/WalletRestart.lean of the wallet-level requests (tied by differential run against a real wallet.Wallet "
+        "and a second wallet opened on a copy of the database file after every request)",
+        "wallet level: the harness resolves addresses to (xpub, branch, index) by its own BIP32 derivation (btcd hdkeychain/btcutil)",
     ],
     "assumptions": [
         "queries are asked at bracket boundaries (never concurrently with an open transaction)",
         "SyncedTo is compared on height and hash (the timestamp is stored truncated to seconds)",
         "AccountProperties.IsWatchOnly is excluded from the comparison (depends on the lock state, which a restart resets)",
+        "wallet level: an xpub is not imported twice into one key scope (the wallet does not refuse it, but then two accounts share every address); "
+        "CreateSimpleTx outcomes are abstracted to {no funds / amount too large, change produced}; funds are credited through the tx store",
     ],
 }
+
+CFG["level_note"] += CFG.pop("level_note_wallet")
